@@ -117,6 +117,7 @@ class Rig:
     def __init__(self, d, kind, slots, inc):
         self.d = d
         self.kind = kind
+        self.flagged = set()
         self.w = World(t0=0)
         self.lan = nl.FaultLAN([], world=self.w)
         self.dev = Device(nl.make_device("dut", DEVICE, apduTimeout=FAR_MS), self.lan, app_timeout=FAR_MS)
@@ -127,6 +128,12 @@ class Rig:
         nsubs = 1 + max(j for (j, p) in self.slots)
         self.subs = [Subscriber(nl.make_device("sub%d" % j, FIRST_SUBSCRIBER + j, apduTimeout=FAR_MS), self.lan) for j in range(nsubs)]
         self.ref = CovRef(self.inc if KINDS[kind]["incremental"] else None, KINDS[kind]["start"], [0, 0, 0, 0])
+
+    def flag(self, kind, **sig):
+        """record a divergence and go on; one report per kind and path (the first occurrence)"""
+        if kind not in self.flagged:
+            self.flagged.add(kind)
+            self.d.flag(True, kind, **sig)
 
     # ------------------------------------------------------------ driving the subscribers
     def mark(self):
@@ -202,7 +209,7 @@ class Rig:
         self.w.settle()
         confs = reader.confirmations[n:]
         if len(confs) != 1 or not isinstance(confs[0], ReadPropertyACK):
-            self.d.flag(True, "active-subscriptions-unreadable-over-the-wire",
+            self.flag("active-subscriptions-unreadable-over-the-wire",
                         got=[nl.outcome_kind(c) for c in confs], logged=[e[1] for e in self.d.errors_logged()])
             return None
         return self.entries(confs[0].propertyValue.cast_out(ListOf(COVSubscription)))
@@ -213,17 +220,17 @@ class Rig:
         d, ref = self.d, self.ref
         rec = ref.subs[slot]
         if tuple(apdu.monitoredObjectIdentifier) != self.oid or tuple(apdu.initiatingDeviceIdentifier) != ("device", DEVICE):
-            d.flag(True, "notification-identifiers", where=where, object=tuple(apdu.monitoredObjectIdentifier),
+            self.flag("notification-identifiers", where=where, object=tuple(apdu.monitoredObjectIdentifier),
                    device=tuple(apdu.initiatingDeviceIdentifier))
         if (k == "C") != rec.confirmed:
             flipped = rec.renewed and rec.prev_confirmed != rec.confirmed
-            d.flag(True, "renewal-confirmed-flag-not-applied" if flipped else "notification-kind",
+            self.flag("renewal-confirmed-flag-not-applied" if flipped else "notification-kind",
                    where=where, requested_confirmed=rec.confirmed, got=k)
         if ref.status(slot) == LIVE:
             want = ref.remaining(slot)
             got = apdu.timeRemaining
             if got != want:
-                d.flag(True, "renewal-lifetime-not-applied" if rec.renewed else "notified-time-remaining",
+                self.flag("renewal-lifetime-not-applied" if rec.renewed else "notified-time-remaining",
                        where=where, got=got, want=want, was_indefinite=rec.prev_indefinite)
 
     def check_subscribe_round(self, target, got, where):
@@ -233,21 +240,21 @@ class Rig:
             n = len(got[slot])
             if slot != target:
                 if n:
-                    d.flag(True, "unsolicited-notification", where=where, slot=slot, n=n, status=ref.status(slot))
+                    self.flag("unsolicited-notification", where=where, slot=slot, n=n, status=ref.status(slot))
                 continue
             if n == 0:
-                d.flag(True, "initial-notification-missing", where=where, slot=slot, renewal=ref.subs[slot].renewed,
+                self.flag("initial-notification-missing", where=where, slot=slot, renewal=ref.subs[slot].renewed,
                        logged=[e[1] for e in d.errors_logged()])
                 continue
             if n > 1:
-                d.flag(True, "initial-notification-duplicated", where=where, slot=slot, n=n)
+                self.flag("initial-notification-duplicated", where=where, slot=slot, n=n)
             k, apdu = got[slot][-1]
             self.check_note(slot, k, apdu, where)
             pv, flags = self.values_of(apdu)
             if pv is None or pv != ref.pv:
-                d.flag(True, "notified-value", where=where, got=pv, current=ref.pv)
+                self.flag("notified-value", where=where, got=pv, current=ref.pv)
             if flags != ref.flags:
-                d.flag(True, "notified-status-flags", where=where, got=flags, current=ref.flags)
+                self.flag("notified-status-flags", where=where, got=flags, current=ref.flags)
             ref.reported({slot: pv})
 
     def check_change_round(self, got, where):
@@ -261,18 +268,18 @@ class Rig:
             n = len(got[slot])
             if n < lo:
                 rec = ref.subs[slot]
-                d.flag(True, "qualifying-change-not-notified", where=where, slot=slot, n=n, renewed=rec.renewed,
+                self.flag("qualifying-change-not-notified", where=where, slot=slot, n=n, renewed=rec.renewed,
                        logged=[e[1] for e in d.errors_logged()])
             if n > hi:
                 if st in (NONE, DEAD):
                     why = ref.gone.get(slot, "expired" if st == DEAD else "never-subscribed")
-                    d.flag(True, "notification-after-" + why, where=where, slot=slot, n=n)
+                    self.flag("notification-after-" + why, where=where, slot=slot, n=n)
                 elif not ref.pending:
-                    d.flag(True, "unsolicited-notification", where=where, slot=slot, n=n, status=st)
+                    self.flag("unsolicited-notification", where=where, slot=slot, n=n, status=st)
                 elif hi == 0:
-                    d.flag(True, "non-qualifying-change-notified", where=where, slot=slot, n=n)
+                    self.flag("non-qualifying-change-notified", where=where, slot=slot, n=n)
                 else:
-                    d.flag(True, "too-many-notifications", where=where, slot=slot, n=n, most=hi)
+                    self.flag("too-many-notifications", where=where, slot=slot, n=n, most=hi)
             if not n or st in (NONE, DEAD):
                 continue
             last_pv = None
@@ -281,22 +288,22 @@ class Rig:
                 pv, flags = self.values_of(apdu)
                 final = idx == n - 1
                 if pv is None or flags is None:
-                    d.flag(True, "notification-lacks-value-or-flags", where=where)
+                    self.flag("notification-lacks-value-or-flags", where=where)
                     continue
                 if not burst:
                     if pv != ref.pv:
-                        d.flag(True, "notified-value", where=where, got=pv, current=ref.pv)
+                        self.flag("notified-value", where=where, got=pv, current=ref.pv)
                     if flags != ref.flags:
-                        d.flag(True, "notified-status-flags", where=where, got=flags, current=ref.flags)
+                        self.flag("notified-status-flags", where=where, got=flags, current=ref.flags)
                 else:
                     # a value the object had in this instant; the last notification leaves nothing unreported
                     if not any(pv == c.pv for c in ref.pending):
-                        d.flag(True, "notified-value", where=where, got=pv, burst=[c.pv for c in ref.pending])
+                        self.flag("notified-value", where=where, got=pv, burst=[c.pv for c in ref.pending])
                     if final:
                         if not ref.within(ref.pv, pv):
-                            d.flag(True, "burst-final-value-not-reported", where=where, got=pv, current=ref.pv)
+                            self.flag("burst-final-value-not-reported", where=where, got=pv, current=ref.pv)
                         if flags != ref.flags:
-                            d.flag(True, "notified-status-flags", where=where, got=flags, current=ref.flags)
+                            self.flag("notified-status-flags", where=where, got=flags, current=ref.flags)
                 last_pv = pv
             if last_pv is not None:
                 told[slot] = last_pv
@@ -311,32 +318,32 @@ class Rig:
         for (mac, net, proc, oid, conf, rem) in entries:
             slot = self.slot_of(mac, proc)
             if slot is None or net != 0:
-                d.flag(True, "listing-unknown-recipient", where=where, mac=mac, net=net, process=proc)
+                self.flag("listing-unknown-recipient", where=where, mac=mac, net=net, process=proc)
                 continue
             if slot in seen:
-                d.flag(True, "subscription-listed-twice", where=where, slot=slot)
+                self.flag("subscription-listed-twice", where=where, slot=slot)
                 continue
             seen.add(slot)
             st = ref.status(slot)
             if st == NONE:
-                d.flag(True, "listing-shows-%s-subscription" % ref.gone.get(slot, "unknown"), where=where, slot=slot)
+                self.flag("listing-shows-%s-subscription" % ref.gone.get(slot, "unknown"), where=where, slot=slot)
                 continue
             if st != LIVE:
                 continue        # the expiry second itself: listed or not
             rec = ref.subs[slot]
             if oid != self.oid:
-                d.flag(True, "listing-monitored-object", where=where, got=oid)
+                self.flag("listing-monitored-object", where=where, got=oid)
             if bool(conf) != rec.confirmed:
                 flipped = rec.renewed and rec.prev_confirmed != rec.confirmed
-                d.flag(True, "renewal-confirmed-flag-not-applied" if flipped else "listing-confirmed-flag",
+                self.flag("renewal-confirmed-flag-not-applied" if flipped else "listing-confirmed-flag",
                        where=where, requested_confirmed=rec.confirmed, listed=conf)
             want = ref.remaining(slot)
             if rem != want:
-                d.flag(True, "renewal-lifetime-not-applied" if rec.renewed else "listing-time-remaining",
+                self.flag("renewal-lifetime-not-applied" if rec.renewed else "listing-time-remaining",
                        where=where, listed=rem, want=want, negative=rem < 0, was_indefinite=rec.prev_indefinite)
         for slot in self.slots:
             if ref.status(slot) == LIVE and slot not in seen:
-                d.flag(True, "live-subscription-not-listed", where=where, slot=slot)
+                self.flag("live-subscription-not-listed", where=where, slot=slot)
 
     # ------------------------------------------------------------ steps
     def write(self, what, i, part=""):
@@ -356,12 +363,16 @@ class Rig:
         op = d.pick(list(spec), 'op%d' % i)
         where = "%d:%s" % (i, op)
         marks = self.mark()
-        if op == "S":
+        if op in ("S", "s"):
             slot = d.pick(self.slots, 'slot%d' % i)
-            confirmed = True if d.bool('confirmed%d' % i) else False
-            lifetime = None
-            if not self.absent or d.bool('has_lifetime%d' % i):
-                lifetime = d.int(0, LIFE_MAX, 'lifetime%d' % i)
+            if op == "s":
+                # the plain subscription of value-centred timelines: unconfirmed, indefinite
+                confirmed, lifetime = False, 0
+            else:
+                confirmed = True if d.bool('confirmed%d' % i) else False
+                lifetime = None
+                if not self.absent or d.bool('has_lifetime%d' % i):
+                    lifetime = d.int(0, LIFE_MAX, 'lifetime%d' % i)
             confs = self.subscribe_request(slot, confirmed, lifetime)
             if len(confs) != 1 or not isinstance(confs[0], SimpleAckPDU):
                 kind = "subscribe-without-lifetime-fails" if lifetime is None else "subscribe-not-acknowledged"
@@ -482,5 +493,52 @@ def instances(tier):
 
     ONE = [[0, 7]]
     if q:
-        add("iv", ["S", "W", "W"], ONE, 120)
+        # values and criteria, one subscriber
+        add("iv", ["S", "WF", "WF"], ONE, 200)
+        add("iv", ["s", "W", "B"], ONE, 200)
+        add("iv", ["s", "B", "W"], ONE, 200)
+        add("iv", ["WF", "s", "WF"], ONE, 100)         # the object moved before anybody subscribed
+        for kind in ("av", "pc", "bv", "msv"):
+            add(kind, ["s", "WF", "WF"], ONE, 100)
+            add(kind, ["s", "B"], ONE, 100)
+        # subscribe / renew / cancel / expiry, one subscriber
+        add("iv", ["S", "SCA", "A"], ONE, 250)
+        add("iv", ["S", "A", "SCW"], ONE, 250)
+        add("iv", ["C", "S", "CA"], ONE, 100)           # cancelling what does not exist
+        # two stations
+        add("bv", ["s", "S", "CAW"], TWO, 250)
+        add("bv", ["s", "S"], TWO, 100, wire=True)
+        # SubscribeCOV without the optional lifetime
+        add("iv", ["S", "S"], ONE, 150, absent=True)
+        return out
+    # ---- thorough
+    # values and criteria, one subscriber
+    add("iv", ["S", "WF", "WF", "WF"], ONE, 1200)
+    add("iv", ["s", "B", "WFB"], ONE, 1500)
+    add("iv", ["s", "WF", "B", "WF"], ONE, 1500)
+    add("iv-signed", ["s", "W", "W", "W"], ONE, 600)
+    add("iv", ["s", "F", "F", "W"], ONE, 300, nflags=3)
+    add("iv", ["WF", "s", "WF", "WF"], ONE, 600)
+    for kind in ("av", "pc"):
+        add(kind, ["s", "WF", "WF", "WF"], ONE, 600)
+        add(kind, ["s", "B", "WF"], ONE, 600)
+        add(kind, ["s", "WF", "B"], ONE, 600)
+    for kind in ("bv", "msv"):
+        add(kind, ["s", "WFB", "WFB"], ONE, 900)
+    # subscribe / renew / cancel / expiry, one subscriber: every 4-step history, split by the second step
+    for second in "SCAW":
+        add("bv", ["S", second, "SCAW", "SCAW"], ONE, 2400)
+    add("iv", ["S", "A", "S", "A"], ONE, 900)
+    add("iv", ["S", "A", "S", "A", "W"], ONE, 1800)
+    add("iv", ["C", "S", "CA", "SW"], ONE, 600)
+    # two stations sharing a process id
+    add("bv", ["s", "S", "SC", "CAW"], TWO, 2400)
+    add("bv", ["S", "S", "A"], TWO, 1200, wire=True)
+    add("iv", ["s", "W", "s", "W"], TWO, 600)            # whose "last reported value"?
+    add("iv", ["s", "s", "W", "W"], TWO, 600)
+    # three stations, one of them with two processes
+    add("bv", ["s", "s", "S", "C"], FOUR, 2400)
+    add("bv", ["s", "s", "s", "CW"], FOUR, 1200)
+    # SubscribeCOV without the optional lifetime
+    add("iv", ["S", "S", "A"], ONE, 600, absent=True)
     return out
